@@ -85,7 +85,7 @@ def run(ck, facts, tier):
                 ck.ok(R, "constructs-Unique:%s" % short(k), "audited")
             else:
                 ck.violation(R, "constructs-Unique:%s" % short(k), b.where(st.get("ln")), "new construction site of Solution::Unique outside the audited producers")
-    ck.floor(R, "Unique-constructions", n, 3)
+    ck.floor(R, "Unique-constructions", n, 2)
 
     # ------------------------------------------------------------------ AMBIG-PROP
     R = "C01.AMBIG-PROP"
@@ -101,8 +101,8 @@ def run(ck, facts, tier):
         fl = cfg.call_blocks(ENG + "flounder_subgoal")
         amb_true = cfg.bool_edges(trace_is_field("chalk_engine::Answer.ambiguous"), True)
         amb_false = cfg.bool_edges(trace_is_field("chalk_engine::Answer.ambiguous"), False)
-        ck.floor(R, "merge.ambiguous-reads", len(amb_true), 3)
-        ck.floor(R, "merge.ambiguous-writes", len(writes), 2)
+        ck.floor(R, "merge.ambiguous-reads", len(amb_true), 2)
+        ck.floor(R, "merge.ambiguous-writes", len(writes), 1)
         for e in amb_true:
             inst = "merge_answer_into_strand:ambiguous-answer@bb%s" % ("pos" if False else "")
             errs = [b for b, j, st in cfg.agg_sites("core::result::Result", "Err")]
@@ -175,7 +175,7 @@ def run(ck, facts, tier):
             ck.ok(R, "push_obligation:truncated->cannot_prove", "%d truncation edge(s)" % len(trunc))
         else:
             ck.violation(R, "push_obligation:truncated->cannot_prove", po.where(), "dropping an oversized obligation must set cannot_prove")
-        ck.floor(R, "push_obligation.truncation-edges", len(trunc), 2)
+        ck.floor(R, "push_obligation.truncation-edges", len(trunc), 1)
     pa = need_body(ck, facts, R, ENG + "pursue_answer")
     if pa:
         ans = [n for n in walk(pa.thir) if n.get("k") == "adt" and n["adt"] == "chalk_engine::Answer"]
